@@ -94,6 +94,8 @@ ENTER = '_enter'    # _enter(ctx): value bound by ``with ctx as v``
 OBJ = '_obj'        # the object under construction inside an inlined __init__
 FACTS = '$facts'    # env key: atom text -> truth value established by guards on this path
 _PURE_BUILTINS = {'isinstance', 'len', 'type', 'callable', 'str', 'int', 'hasattr'}
+_PURE_METHODS = {'rsplit', 'split', 'strip', 'lower', 'upper', 'startswith', 'endswith', 'format',
+                 'rpartition', 'partition', 'lstrip', 'rstrip', 'decode', 'encode'}
 
 
 def _stable(cond):
@@ -103,8 +105,11 @@ def _stable(cond):
         if isinstance(n, ast.Await):
             return False
         if isinstance(n, ast.Call):
-            if not (isinstance(n.func, ast.Name) and n.func.id in _PURE_BUILTINS):
-                return False
+            if isinstance(n.func, ast.Name) and n.func.id in _PURE_BUILTINS:
+                continue
+            if isinstance(n.func, ast.Attribute) and n.func.attr in _PURE_METHODS:
+                continue
+            return False
     return True
 
 
